@@ -153,6 +153,14 @@ def build_prior(case):
             pars_in = list(pars.values())
         else:
             pars_in = pars
+        # the offsets are accepted as "an iterable of pymc variables": list, tuple, or a one-shot iterator / generator
+        oa = case.get("offsets_as", "list")
+        if oa == "tuple":
+            v0_offsets = tuple(v0_offsets)
+        elif oa == "iter":
+            v0_offsets = iter(v0_offsets)
+        elif oa == "gen":
+            v0_offsets = (v for v in list(v0_offsets))
         return tj.JokerPrior(pars=pars_in, poly_trend=pt_, v0_offsets=v0_offsets, model=model)
 
 
@@ -456,6 +464,12 @@ def build_cases(quick):
             cases.append(dict(kind="prior", poly_trend=pt_, n_offsets=no, mut=[], accept=True, pars_as=pars_as))
         bad = single_mutilations(pt_, no)
         good = valid_variations(pt_, no)
+        if no:
+            for oa in ("tuple", "iter", "gen"):
+                cases.append(dict(kind="prior", poly_trend=pt_, n_offsets=no, mut=[], accept=True, offsets_as=oa))
+                for m in bad:
+                    if m["name"].startswith("dv0_"):
+                        cases.append(dict(kind="prior", poly_trend=pt_, n_offsets=no, mut=[m], accept=False, offsets_as=oa))
         for m in bad:
             cases.append(dict(kind="prior", poly_trend=pt_, n_offsets=no, mut=[m], accept=False))
         for m in good:
